@@ -1,6 +1,7 @@
 import ClaripyProofs.Lemmas.VSA.Convert
 import ClaripyProofs.Lemmas.VSA.ConvertProved
 import ClaripyProofs.Lemmas.VSA.MinMax
+import ClaripyProofs.Lemmas.VSA.ConvertAligned
 /-!
 # C24 — VSA evaluation of expressions over annotated variables over-approximates
 
@@ -204,5 +205,81 @@ example : usesRestBV demoExpr = false ∧ DefBV (fun _ => 3) demoExpr := by
   refine ⟨by decide, ?_⟩
   simp only [demoExpr, DefBV, DefB, true_and, and_true]
   exact ⟨4, by decide⟩
+
+/-! ## the alignment guard discharged
+
+EVERY interval operation the backend dispatches to returns an aligned interval (upper bound = a member) when its operands are
+aligned and in constructor-normal form: `add, sub, neg, not, and, or, xor, mul, udiv, urem, shl, lshr, ashr, zero_extend,
+sign_extend, extract, concat`, the join of `If` (`Lemmas/VSA/Aligned*.lean`, `C21_*_aligned`, `C22_*_aligned`); `neg, not, and, xor,
+udiv` (and `mul`, `sub` w.r.t. the subtrahend, `urem` w.r.t. nothing but the dividend) do so whatever the operands are.  The only
+interval operation of the class that can turn aligned operands into an unaligned result is `widen` (`C22.widen_breaks_alignment`),
+which is not an operator of these ASTs.  Hence the guard `alBV` / `alB` follows from a SYNTACTIC condition on the AST and the
+annotations, `guardFreeBV` / `guardFreeB`: below every `==` / `!=` / `*` operand and every `%` divisor, the annotations of the
+variables that reach that position through `+ | Concat If ZeroExt SignExt Extract` or as the LEFT operand of `- % << LShR >>` are
+aligned (`alSrc`); variables below a `neg ~ & ^ /u *` node, on the right of `- << LShR >> %`, or in an `If` condition, need not be.
+With all annotations aligned no condition is left at all (`C24_sound_aligned`). -/
+
+/-- **no alignment guard**: bit-vector ASTs whose `==` / `!=` / `*` / `%`-divisor positions are fed from aligned annotations
+(`guardFreeBV`; every operation of the AST language is allowed everywhere) -/
+theorem C24_sound_aligned_fragment (anno : Nat → SI) (env : Nat → Nat)
+    (hctx : ∀ i, (anno i).WF ∧ (anno i).mem (env i)) (hnrm : ∀ i, Nrm (anno i))
+    (e : BV) (hgf : guardFreeBV anno e) (hdef : DefBV env e) (o o' : Orders) (av : AV) (hwt : WTBV anno env e)
+    (h : convBV anno e o = .ok (av, o')) (v : Nat) (hv : evalBV env e = some v) :
+    av.si.WF ∧ av.si.bits = wd e ∧ av.si.mem v :=
+  C24_sound anno env hctx hnrm e hdef o o' (alBV_of_guardFree anno env hctx hnrm e o hgf hdef hwt).1 av hwt h v hv
+
+/-- … Boolean ASTs -/
+theorem C24_sound_aligned_fragment_bool (anno : Nat → SI) (env : Nat → Nat)
+    (hctx : ∀ i, (anno i).WF ∧ (anno i).mem (env i)) (hnrm : ∀ i, Nrm (anno i))
+    (c : BExp) (hgf : guardFreeB anno c) (hdef : DefB env c) (o o' : Orders) (br : BoolRes) (hwt : WTB anno env c)
+    (h : convB anno c o = .ok (br, o')) (b : Bool) (hb : evalB env c = some b) : br.has b = true :=
+  C24_sound_bool anno env hctx hnrm c hdef o o' (alB_of_guardFree anno env hctx hnrm c o hgf hdef hwt) br hwt h b hb
+
+/-- **every AST over aligned annotations**: the evaluation over-approximates, no guard on the evaluation left (annotations well
+formed, normal, aligned — e.g. everything `claripy.SI(...)` builds from a lower bound, a stride and a member count; the AST has a
+value at every node) -/
+theorem C24_sound_aligned (anno : Nat → SI) (env : Nat → Nat)
+    (hctx : ∀ i, (anno i).WF ∧ (anno i).mem (env i)) (hnrm : ∀ i, Nrm (anno i)) (hall : ∀ i, (anno i).Aligned)
+    (e : BV) (hdef : DefBV env e) (o o' : Orders) (av : AV) (hwt : WTBV anno env e)
+    (h : convBV anno e o = .ok (av, o')) (v : Nat) (hv : evalBV env e = some v) :
+    av.si.WF ∧ av.si.bits = wd e ∧ av.si.mem v :=
+  C24_sound_aligned_fragment anno env hctx hnrm e (guardFreeBV_of_all anno hall e) hdef o o' av hwt h v hv
+
+theorem C24_sound_aligned_bool (anno : Nat → SI) (env : Nat → Nat)
+    (hctx : ∀ i, (anno i).WF ∧ (anno i).mem (env i)) (hnrm : ∀ i, Nrm (anno i)) (hall : ∀ i, (anno i).Aligned)
+    (c : BExp) (hdef : DefB env c) (o o' : Orders) (br : BoolRes) (hwt : WTB anno env c)
+    (h : convB anno c o = .ok (br, o')) (b : Bool) (hb : evalB env c = some b) : br.has b = true :=
+  C24_sound_aligned_fragment_bool anno env hctx hnrm c (guardFreeB_of_all anno hall c) hdef o o' br hwt h b hb
+
+/-- alignment is an invariant of the evaluation: the abstract value of an AST whose alignment-relevant leaves (`alSrc`) carry
+aligned annotations is aligned — in particular `max` of it is attained (`C22_max_exact_aligned`) -/
+theorem C24_value_aligned (anno : Nat → SI) (env : Nat → Nat)
+    (hctx : ∀ i, (anno i).WF ∧ (anno i).mem (env i)) (hnrm : ∀ i, Nrm (anno i))
+    (e : BV) (hgf : guardFreeBV anno e) (hsrc : alSrc anno e) (hdef : DefBV env e) (o o' : Orders) (av : AV)
+    (hwt : WTBV anno env e) (h : convBV anno e o = .ok (av, o')) : av.si.Aligned :=
+  (alBV_of_guardFree anno env hctx hnrm e o hgf hdef hwt).2 hsrc av o' h
+
+/-- `SolverVSA.max` on such an AST is the greatest value of the abstract result (not just a bound) -/
+theorem C24_max_attained_aligned (anno : Nat → SI) (env : Nat → Nat)
+    (hctx : ∀ i, (anno i).WF ∧ (anno i).mem (env i)) (hnrm : ∀ i, Nrm (anno i))
+    (e : BV) (hgf : guardFreeBV anno e) (hsrc : alSrc anno e) (hdef : DefBV env e) (o o' : Orders) (av : AV)
+    (hwt : WTBV anno env e) (h : convBV anno e o = .ok (av, o')) (m : Int) (hm : av.si.max false = .ok (some m)) :
+    ∃ x, av.si.mem x ∧ (x : Int) = m := by
+  obtain ⟨v, hv⟩ := defBV_some env e hdef
+  obtain ⟨hw, _, hmem⟩ := C24_sound_aligned_fragment anno env hctx hnrm e hgf hdef o o' av hwt h v hv
+  exact max_attained av.si m hw hmem.1 (C24_value_aligned anno env hctx hnrm e hgf hsrc hdef o o' av hwt h) hm
+
+/-- non-vacuity: `demoEq = If((x & 6) == 4, x, 0)` is guard-free over the aligned demo annotation … -/
+example : guardFreeBV demoAnno demoEq ∧ alSrc demoAnno demoEq := by
+  simp only [demoEq, guardFreeBV, guardFreeB, alSrc, needA, needB, restCmp, true_and, and_true, implies_true, and_self]
+  decide
+
+/-- … and stays guard-free when `x` carries the UNALIGNED annotation `2[0,5]` (the operand of `==` is an `&` node, which
+re-aligns), whereas `x == 4` itself is not guard-free then -/
+example : let anno : Nat → SI := fun _ => { bits := 3, stride := 2, lb := 0, ub := 5 }
+    ¬ (anno 0).Aligned ∧ guardFreeB anno (.cmp .eq (.bin .and (.var 0 3) (.const 6 3)) (.const 4 3)) ∧
+    ¬ guardFreeB anno (.cmp .eq (.var 0 3) (.const 4 3)) := by
+  simp only [guardFreeBV, guardFreeB, alSrc, needA, needB, restCmp, true_and, and_true, implies_true, forall_const]
+  decide
 
 end Claripy.Props.C24
